@@ -92,9 +92,10 @@ class E6(ARig):
         raise KeyError(who)
 
 
-def _engine_run(ch, callers, offsets, R, window, faulty_verbs, fixed=None, noise=None, batch=False, cancel=None):
+def _engine_run(ch, callers, offsets, R, window, faulty_verbs, fixed=None, noise=None, batch=False, cancel=None, stall=0.0):
     rig = E6(ch, window)
     rig.loop.batch_choices_enabled = batch
+    rig.loop.stall = stall  # a loaded host: every timer wake-up late by this much
     t_base = rig.loop.time()
     results = {}
     enter = {}
@@ -208,7 +209,7 @@ def _engine_run(ch, callers, offsets, R, window, faulty_verbs, fixed=None, noise
             # completion bound
             if myw:
                 start = myw[0][2]
-                bound = Rw * (TIMEOUT + PAUSE) + Rw * 3 * POLL + 0.5
+                bound = Rw * (TIMEOUT + PAUSE) + Rw * (3 * POLL + 6 * stall) + 0.5
                 if done_at[who] - start > bound:
                     why = ("slow", f"{who}: completed {done_at[who]-start:.2f}s after its first attempt, bound {bound:.2f}")
     if why is None:
@@ -261,6 +262,12 @@ def _engine_job(job):
         return {"violations": viol, "obs": obs, "end": obs}
 
     return explore.run_with(prefix, body)
+
+
+def _stall_job(job):
+    who, R, stall, fate = job
+    lib.reset_library()
+    return _engine_run(Chooser(), (who,), (0.0,), R, 0.0, (who,), fixed=fate, stall=stall)
 
 
 def _latency_job(job):
@@ -650,6 +657,17 @@ def run(ctx):
     ctx.set("slow_reply_runs", len(ljobs))
     execs += len(ljobs)
 
+    # A6: event-loop stalls: every wake-up late by 50 / 90 ms; time-outs and pauses are measured on the clock, so the
+    # completion bound only grows by a few stalls
+    sjobs = [(who, R, st, fate) for who in ("version", "press", "status") for R in (1, 2) for st in (0.05, 0.09) for fate in ("drop", "deliver")]
+    for (why, obs), job in zip(core.pmap(ctx, _stall_job, sjobs, chunksize=2), sjobs):
+        states.add(obs)
+        if why:
+            ctx.violation(f"C06|engine|{why[0]}|stalled-loop|{job[0]}", f"{job[0]} R={job[1]} replies {job[3]}, every wake-up {job[2]}s late: {why[1]}",
+                          {"mode": "stall", "job": list(job)})
+    ctx.set("stalled_loop_runs", len(sjobs))
+    execs += len(sjobs)
+
     # A3: configured retry count against total loss
     lib.reset_library()
     why, obs = _engine_run(Chooser(), ("version",), (0.0,), 10, 0.0, ("version",), fixed="drop")
@@ -719,6 +737,10 @@ def replay(ctx, data):
         v = _unconnected_job((data["lost"], data["api"]))
         if v:
             ctx.violation(*v)
+    elif m == "stall":
+        why, _ = _stall_job(tuple(data["job"]))
+        if why:
+            ctx.violation(f"C06|engine|{why[0]}|stalled-loop|{data['job'][0]}", why[1], data)
     elif m == "latency":
         why, _ = _latency_job((data["who"], data["delay"]))
         if why:
